@@ -430,7 +430,10 @@ Definition broadcast_heartbeat_hint (r : raft) (ctx : N * N) : raft :=
 Definition broadcast_heartbeat (r : raft) : raft :=
   if negb (is_leader r) then panic r
   else match rev (r_reads r) with
-       | rs :: _ => broadcast_heartbeat_hint r (rs_ctx rs)
+       | rs :: _ =>
+         (* hinted heartbeat to the voting members, plain heartbeat to the non-voting ones *)
+         fold_left (fun r' id => send_heartbeat r' id (0, 0) (peer_match r id)) (akeys (r_nonvotings r))
+                   (broadcast_heartbeat_hint r (rs_ctx rs))
        | [] => broadcast_heartbeat_hint r (0, 0)
        end.
 
@@ -598,20 +601,25 @@ Definition restore (r : raft) (s : snapshot) : raft * bool :=
     end
   else (r <| r_log := log_restore l s |>, true).
 
+Definition rr_step_addr (r' : raft) (id : N) : raft :=
+  let r1 := if (id =? r_id r') && is_nonvoting r' then become_follower r' (r_term r') (r_leader r') else r' in
+  if amem id (r_witnesses r1) then panic r1
+  else let nx := log_last (r_log r1) + 1 in
+       r1 <| r_remotes := ainsert id (new_remote (if id =? r_id r1 then nx - 1 else 0) nx) (r_remotes r1) |>.
+Definition rr_mk (r' : raft) (id : N) : remote :=
+  let nx := log_last (r_log r') + 1 in new_remote (if id =? r_id r' then nx - 1 else 0) nx.
+Definition rr_add_nonvoting (r' : raft) (id : N) : raft :=
+  r' <| r_nonvotings := ainsert id (rr_mk r' id) (r_nonvotings r') |>.
+Definition rr_add_witness (r' : raft) (id : N) : raft :=
+  r' <| r_witnesses := ainsert id (rr_mk r' id) (r_witnesses r') |>.
+Definition rr_step_down (r1 : raft) : raft :=
+  if self_removed r1 && is_leader r1 then become_follower r1 (r_term r1) 0 else r1.
+
 Definition restore_remotes (r : raft) (s : snapshot) : raft :=
-  let step_addr := fun (r' : raft) id =>
-    let r1 := if (id =? r_id r') && is_nonvoting r' then become_follower r' (r_term r') (r_leader r') else r' in
-    if amem id (r_witnesses r1) then panic r1
-    else let nx := log_last (r_log r1) + 1 in
-         r1 <| r_remotes := ainsert id (new_remote (if id =? r_id r1 then nx - 1 else 0) nx) (r_remotes r1) |> in
-  let r1 := fold_left step_addr (ss_addrs s) (r <| r_remotes := [] |>) in
-  let r2 := if self_removed r1 && is_leader r1 then become_follower r1 (r_term r1) 0 else r1 in
-  let mk := fun (r' : raft) id => let nx := log_last (r_log r') + 1 in
-                                  new_remote (if id =? r_id r' then nx - 1 else 0) nx in
-  let r3 := fold_left (fun r' id => r' <| r_nonvotings := ainsert id (mk r' id) (r_nonvotings r') |>)
-                      (ss_nonvotings s) (r2 <| r_nonvotings := [] |>) in
-  fold_left (fun r' id => r' <| r_witnesses := ainsert id (mk r' id) (r_witnesses r') |>)
-            (ss_witnesses s) (r3 <| r_witnesses := [] |>).
+  let r1 := fold_left rr_step_addr (ss_addrs s) (r <| r_remotes := [] |>) in
+  let r2 := rr_step_down r1 in
+  let r3 := fold_left rr_add_nonvoting (ss_nonvotings s) (r2 <| r_nonvotings := [] |>) in
+  fold_left rr_add_witness (ss_witnesses s) (r3 <| r_witnesses := [] |>).
 
 (* ------------------------------------------------------------------ *)
 (* readindex.go *)
